@@ -42,6 +42,11 @@ func (x *QuorumCertificate) CheckBasic() ErrorI {
 		// exit with empty qc error
 		return ErrEmptyQuorumCertificate()
 	}
+	// a certificate may arrive inside a message that is decoded leniently (block message, consensus message); refuse unknown
+	// fields anywhere in it, otherwise it is stored and the strict decoder (Unmarshal) can never read it back
+	if err := detectUnknownProtoFields(x.ProtoReflect(), 0); err != nil {
+		return ErrUnmarshal(err)
+	}
 	// sanity check the view of the QC
 	if err := x.Header.CheckBasic(); err != nil {
 		// exit with error
